@@ -15,6 +15,8 @@ ICONS = {"cfgeval:protocols.http.HTTPProtocol/iconmapping": "dict[str,str]"}
 
 
 def register(w):
+    w.always_standin["C13"] = [("pygopherd/handlers/html.py::HTMLFileTitleHandler.getentry", "the title scan runs html.parser over served content (outside the subset): what becomes the entry name is checked on real files"),
+                               ("pygopherd/handlers/mbox.py::MessageHandler.getentry", "mail subjects come through the mailbox and email modules (assumed interface)")]
     w.fields("BaseGopherProtocol", entry="obj:GopherEntry")
     def replace(q, classes, **kw):
         for cls in classes:
